@@ -77,7 +77,9 @@ func init() {
 			Rename: map[string]string{"Display()": ""}},
 		// ---- pkg/oidc/userinfo.go
 		{File: "pkg/oidc/userinfo.go", Name: "Bool.UnmarshalJSON", Lean: "BoolUnmarshalJSON",
-			Params: []string{"(bs : Bool)", "(data : String)"}, Ret: RetErr, RetParam: "bs", RetType: "Bool"},
+			Params: []string{po, "(bs : Bool)", "(data : String)"}, Ret: RetErr, RetParam: "bs", RetType: "Bool",
+			LocalOut: map[string]OutParam{"json.Unmarshal": {1, true}},
+			Rename:   map[string]string{"json.Unmarshal()": "(o).jsonString"}},
 		// ---- pkg/oidc/util.go
 		{File: "pkg/oidc/util.go", Name: "unmarshalJSONMulti", Lean: "unmarshalJSONMulti",
 			Params: []string{po, "(data : String)", "(destinations : List Dst)"}, Ret: RetErr,
